@@ -146,6 +146,12 @@ class GridDriver:
         vals = []
         if kind == "callable":
             gen = lambda pos, cells: 100 * pos[0] + 10 * pos[1] + pos[2] + k  # noqa: E731
+        elif kind == "halve":
+            if name not in w.cells.columns or not all(isinstance(v, (int, np.integer)) for v in w.cells[name]):
+                return
+            # the generator reads the component's CURRENT value of the cell it is asked for
+            ids = {tuple(p): i for i, p in enumerate(w.cells["pos"])}
+            gen = lambda pos, cells: int(cells[name][ids[tuple(pos)]]) // 2  # noqa: E731
         elif kind == "constant":
             gen = ConstantGenerator(k)
         elif kind == "tconst":
@@ -253,6 +259,7 @@ def c09_programs(max_ext):
             prog += [["remove", "p"]] + [["get_cell", c] for c in cells(s)]
             prog += [["add", "q", "constant", 8], ["add", "r", "callable", 1]] + [["get_cell", c] for c in cells(s)]
             prog += [["remove", "q"], ["remove", "nope"]] + [["get_cell", c] for c in cells(s)]
+            prog += [["add", "r", "halve", 0]] + [["get_cell", c] for c in cells(s)]
             out.append(prog)
     return out
 
@@ -285,7 +292,7 @@ def c11_random_program(rng, max_ext=3, length=10):
     for _ in range(length):
         r = rng.random()
         if r < 0.55:
-            prog.append(["add", rng.choice(names), rng.choice(["callable", "constant", "tconst", "list", "array", "roarray", "lookup", "lookup"]), rng.choice([0, 3, 5, -4])])
+            prog.append(["add", rng.choice(names), rng.choice(["callable", "constant", "tconst", "list", "array", "roarray", "lookup", "lookup", "halve", "halve"]), rng.choice([0, 3, 5, -4])])
         elif r < 0.7:
             prog.append(["mutate", rng.choice(names)])
         elif r < 0.9:
